@@ -593,6 +593,10 @@ class State:
         return s
 
 
+# statement-position methods of library objects that write the object out and leave it as it was
+READ_ONLY_METHODS = frozenset({"to_csv", "to_json", "to_pickle", "to_string", "to_excel", "to_parquet", "info", "describe", "head", "tail"})
+
+
 class Event:
     """An uninterpreted call observed during interpretation (for rules on call arguments)."""
 
@@ -747,7 +751,7 @@ class Frame:
                 a = r.as_atom()
                 cur = st.env[c.func.value.id]
                 ca = cur.as_atom() if isinstance(cur, Poly) else None
-                if (a is not None and a[0] == "mcall" and ca is not None and a[2] == cur.key()
+                if (a is not None and a[0] == "mcall" and ca is not None and a[2] == cur.key() and c.func.attr not in READ_ONLY_METHODS
                         and ca[0] in ("call", "mcall", "upd", "attr", "sub", "elem", "v", "after") and not (ca[0] == "call" and ca[1] == "concat")):
                     st.env[c.func.value.id] = Poly.atom(("upd",) + a[1:])
             return [(st, ("fall",))]
